@@ -108,6 +108,73 @@ class Env:
         return out
 
 
+class OnlineZ3:
+    """one `z3 -in` process kept alive for branch-feasibility questions during path exploration (push / check-sat / pop).
+    `unknown` counts as feasible.  Every branch it rules out is recorded by the executor and re-checked by cvc5."""
+
+    def __init__(self, ctx, pre):
+        self.ctx, self.sent, self.n, self.t = ctx, set(), 0, 0.0
+        self.p = subprocess.Popen([Z3, "-in"], stdin=subprocess.PIPE, stdout=subprocess.PIPE, stderr=subprocess.STDOUT, text=True)
+        self._w("(set-logic ALL)\n(set-option :timeout 20000)\n")
+        self.pre = pre
+
+    def _w(self, txt):
+        self.p.stdin.write(txt)
+
+    def _decls(self):
+        out = []
+        for n, s_ in self.ctx.decls.items():
+            if n not in self.sent:
+                self.sent.add(n)
+                out.append(f"(declare-const {n} {s_})")
+        for n, (a, r) in self.ctx.ufs.items():
+            if n not in self.sent:
+                self.sent.add(n)
+                out.append(f"(declare-fun {n} ({' '.join(a)}) {r})")
+        return "\n".join(out) + "\n"
+
+    def __call__(self, pc):
+        t0 = time.time()
+        self.n += 1
+        self._w(self._decls() + "(push 1)\n" + "".join(f"(assert {t})\n" for t in self.pre + list(pc) if t != "true")
+                + "(check-sat)\n(pop 1)\n")
+        self.p.stdin.flush()
+        while True:
+            ln = self.p.stdout.readline()
+            if not ln:
+                raise Unsupported("online z3 died")
+            ln = ln.strip()
+            if ln in ("sat", "unsat", "unknown", "timeout"):
+                break
+            if ln.startswith("(error"):
+                raise Unsupported("online z3: " + ln[:200])
+        self.t += time.time() - t0
+        return ln != "unsat"
+
+    def close(self):
+        try:
+            self.p.stdin.close()
+            self.p.kill()
+        except Exception:  # noqa
+            pass
+
+
+def cvc5_all_unsat(env, ctx, assertions):
+    """cross-check by the second solver of branches the first one ruled out online: every assertion must be unsat.
+    One incremental cvc5 session; returns the list of verdicts that are not `unsat` (empty = agreement)."""
+    if not assertions:
+        return []
+    script = ctx.preamble() + "\n" + "".join(f"(push 1)\n(assert {a})\n(check-sat)\n(pop 1)\n" for a in assertions)
+    t0 = time.time()
+    r = run_solver([CVC5, "--lang", "smt2", "--incremental", "--tlimit-per=20000"], script)
+    env.solver_s += time.time() - t0
+    env.queries += len(assertions)
+    bad = [v for v in r[:len(assertions)] if v != "unsat"]
+    if len(r) < len(assertions):
+        bad.append("missing answers: %d of %d" % (len(r), len(assertions)))
+    return bad
+
+
 def run_solver_raw(cmd, script):
     try:
         p = subprocess.run(cmd, input=script, capture_output=True, text=True, timeout=300)
@@ -850,9 +917,10 @@ def c01_redo_insert(env, ob):
     return merge(a, b)
 
 
-@obligation(id="C03.commit_only_on_success", also="C02",
+@obligation(id="C03.commit_only_on_success", also="C02,C16",
             funcs="Database::execute::{closure#0},Database::execute_batch::{closure#1}",
-            bounds="every path of the autocommit/batch worker closures; callees uninterpreted")
+            bounds="every path of the autocommit/batch worker closures; callees uninterpreted",
+            native="c03_failed_statement_leaves_nothing")
 def c03_commit_only_on_success(env, ob):
     agg = None
     for name, (ctx, f, args, res) in commit_paths(env)[1:]:
@@ -1402,7 +1470,7 @@ def c03_no_physical_removal(env, ob):
 RAW_READERS = r"(get_tuple_at_unchecked|Tuple::from_slice_unchecked|TupleRef::<.*>::to_row_with|Tuple::as_tuple_ref_with|TupleReader::parse_unchecked|with_cell_at)"
 
 
-@obligation(id="C03.row_sources_read_through_snapshot", also="C04,C06", funcs="DdlExecutor::populate_index,SeqScan::next,IndexScan::next",
+@obligation(id="C03.row_sources_read_through_snapshot", also="C04,C06,C07,C15", funcs="DdlExecutor::populate_index,SeqScan::next,IndexScan::next",
             bounds="every path of the three row sources (loops unrolled once, longer iterations repeat the same body); "
                    "Btree::get_row_at itself is covered by the visibility obligations",
             native="c03_index_built_after_rollback")
@@ -1703,7 +1771,18 @@ def c07_unique(env, ob):
 def c07_probe(env, ob):
     """The probe reports a conflict exactly when the found index entry is visible to the statement's snapshot and is not
     the row being updated: invisible (deleted / rolled back / changed away) entries never conflict, visible ones always."""
-    ctx, f, args, res = explore(env, VALIDATOR, "search_index::{closure#0}", loop_bound=1)
+    # the probe closure is the one taking the stored entry's bytes; its ordinal changes when another closure is added
+    probe = None
+    for k in range(8):
+        try:
+            env.mir.find(VALIDATOR, "search_index::{closure#%d}" % k, r"_2: &\[u8\]\) -> Result<bool")
+            probe = "search_index::{closure#%d}" % k
+            break
+        except Unsupported:
+            continue
+    if probe is None:
+        raise Unsupported("no closure of search_index takes the entry bytes and returns Result<bool, _>")
+    ctx, f, args, res = explore(env, VALIDATOR, probe, sig=r"_2: &\[u8\]\) -> Result<bool", loop_bound=1)
 
     def vis_terms(path):
         p = _evs(path, r"parse_for_snapshot$")
@@ -1758,7 +1837,22 @@ def c07_probe(env, ob):
                 return ("conflict_reported_without_looking_at_the_entry", None)
         return None
     b = trace_obligation(env, ob, ctx2, res2, bad_outer, "search_index verdict", cuts_ok=True)
-    return merge(a, b)
+
+    # "no conflict" without looking into the index is only right when a column OF THE KEY is NULL (and NULLs are skipped)
+    def bad_skip(path, rv):
+        if path.panics or rv is None:
+            return None
+        if _evs(path, r"Btree::<.*>::search"):
+            return None
+        isok = f"(= {rv.get_disc().term} {bvconst(0, 64)})"
+        for e in _evs(path, r"DataType::is_null$"):
+            from_key = any("Iterator>::next" in d for d in e.get("argdesc", []))
+            if from_key and isinstance(e["ret"], Leaf) and e["ret"].term in path.pc:
+                return None
+        return ("uniqueness_probe_skipped_without_a_null_in_a_key_column", isok)
+    c = trace_obligation(env, ob, ctx2, res2, bad_skip, "search_index answers 'no conflict' without probing the index although no "
+                         "indexed column of the new row was found NULL", cuts_ok=True)
+    return merge(merge(a, b), c)
 
 
 @obligation(id="C07.validated_before_write", funcs="DmlExecutor::insert,DmlExecutor::update,DmlExecutor::validate_insert_constraints,"
@@ -2273,6 +2367,96 @@ def c16_eval_arms(env, ob):
 
 
 # ---------------------------------------------------------------------------------------------------------------------
+# C16: every argument / column index in the scalar-function implementations and in eval_column is guarded by a length test
+# ---------------------------------------------------------------------------------------------------------------------
+def _guarded_index_models():
+    """Vec<DataType> / Row: `len` is one symbol per container, `container[k]` yields the side condition k < len."""
+    def cont(a):
+        c = a.cell.val if isinstance(a, Ref) else a
+        if not isinstance(c, Agg):
+            return None
+        return c
+
+    def key(c):
+        return c.name if c.name is not None else "anon%d" % id(c)
+
+    def m_len(ex, path, frame, callee, args, dest_ty):
+        c = cont(args[0])
+        if c is None:
+            return NotImplemented
+        return ex.ctx.declare("len:" + key(c), "usize")
+
+    def m_index(ex, path, frame, callee, args, dest_ty):
+        c = cont(args[0])
+        if c is None or not isinstance(args[1], Leaf):
+            return NotImplemented
+        ln = ex.ctx.declare("len:" + key(c), "usize")
+        cond = fold(f"(bvult {args[1].term} {ln.term})")
+        path.side.append((list(path.pc), cond, f"index out of bounds in {frame.func.name.split('::')[-1]}: index {mirsmt.describe(args[1])}"))
+        path.pc.append(cond)
+        k = "[" + args[1].term + "]"
+        if k not in c.fields:
+            c.fields[k] = Cell(ex.ctx.sym((c.name or ex.ctx.fresh("elem")) + k, "types::DataType"))
+        return Ref(c.fields[k])
+    return {r"^Vec::<types::DataType>::len$|^Row::len$": m_len,
+            r"^<Vec<types::DataType> as Index<usize>>::index$|^<Row as Index<usize>>::index$": m_index}
+
+
+@obligation(id="C16.argument_indexing_guarded", also="C05", funcs="<* as Callable>::call (every scalar function in runtime/eval.rs),ExpressionEvaluator::eval_column",
+            bounds="every path of each function (loops unrolled twice); the argument vector / row has ANY length; other callees uninterpreted",
+            native="c16_scalar_function_arity")
+def c16_arg_index(env, ob):
+    """A statement may call a scalar function with any number of arguments (the binder does not check arity) and name any
+    column position: an index into the argument vector / the row that the path condition does not bound is a panic in the
+    worker thread."""
+    src = env.read("runtime/eval.rs").split("\n")
+    targets = []
+    for h, s_, e_ in env.mir.funcs:
+        m = re.match(r"^fn eval::<impl at crates/axmos-db/src/runtime/eval\.rs:(\d+):\d+: \d+:\d+>::call\(_1: Vec<types::DataType>\)", h)
+        if m:
+            line = src[int(m.group(1)) - 1] if int(m.group(1)) - 1 < len(src) else ""
+            mm = re.search(r"impl\s+Callable\s+for\s+(\w+)", line)
+            targets.append((mm.group(1) if mm else f"impl@{m.group(1)}", mirsmt.Func(h, env.mir.lines[s_ + 1:e_])))
+    if len(targets) < 3:
+        raise Unsupported("scalar function implementations (impl Callable) not found in the dump")
+    targets.append(("eval_column", env.mir.find("runtime/eval.rs", "eval_column")))
+    bad, inc, total, nq = [], [], 0, 0
+    for name, f in targets:
+        ctx = mirsmt.Ctx()
+        mdl = dict(COMMON_MODELS)
+        mdl.update(_guarded_index_models())
+        ex = mirsmt.Executor(env.mir, ctx, models=mdl, loop_bound=2, max_paths=20000)
+        try:
+            res = ex.run(f, [ctx.sym("p%d" % i, t) for i, (n, t) in enumerate(f.params)])
+        except Unsupported as e:
+            inc.append(f"{name}: {str(e)[:100]}")
+            continue
+        total += len(res)
+        qs, seen = [], set()
+        for path, rv in res:
+            for (prefix, cond, msg) in path.side:
+                q = conj(prefix + [f"(not {cond})"])
+                if q not in seen:
+                    seen.add(q)
+                    qs.append(q)
+        if not qs:
+            continue
+        chk = env.check(ctx, [disj(qs)])
+        nq += 1
+        if chk[0]["verdict"] == "sat":
+            bad.append(name)
+        elif chk[0]["verdict"] != "unsat":
+            inc.append(f"{name}: {chk[0]['verdict']}")
+    kw = dict(paths=total, queries=nq, events={"functions": [n for n, _ in targets]})
+    if bad:
+        return result(ob, "violated", failed=[f"unguarded_index[{b}]" for b in sorted(bad)],
+                      cex={"what": "an index into the argument vector / row is reachable with the index >= length", "functions": bad}, **kw)
+    if inc:
+        return result(ob, "inconclusive", reason="; ".join(inc)[:300], **kw)
+    return result(ob, "discharged", **kw)
+
+
+# ---------------------------------------------------------------------------------------------------------------------
 # C05: operator precedence of the Pratt parser (constants and the loop condition are extracted from the real MIR)
 # ---------------------------------------------------------------------------------------------------------------------
 PARSER = "sql/parser/mod.rs"
@@ -2475,6 +2659,412 @@ def c20_framing_exact(env, ob):
         return result(ob, "violated", failed=["frame_shorter_or_longer_than_announced"],
                       cex={"what": "read_message can return Ok(buffer) whose length differs from the announced frame length"}, **kw)
     return result(ob, "inconclusive", reason=chk[0]["verdict"], **kw)
+
+
+# ---------------------------------------------------------------------------------------------------------------------
+# C10: the rebalancing plan (Btree::compute_best_cell_distribution) for ALL cell-size sequences of a bounded length
+# ---------------------------------------------------------------------------------------------------------------------
+SCALAR_LAYOUT = {"u8": (1, 1), "bool": (1, 1), "u16": (2, 2), "i16": (2, 2), "u32": (4, 4), "i32": (4, 4), "f32": (4, 4),
+                 "u64": (8, 8), "i64": (8, 8), "usize": (8, 8), "f64": (8, 8), "PageId": (8, 8), "TransactionId": (8, 8),
+                 "Option<PageId>": (16, 8), "Option<u64>": (16, 8), "Option<TransactionId>": (16, 8)}
+
+
+def repr_c_size(env, rel, name):
+    """size_of of a `#[repr(C ...)]` struct whose fields are scalars / Option<8-byte scalar>: C layout rule (fields in
+    order, each aligned to its own alignment, total rounded up to the struct alignment).  Anything else: Unsupported."""
+    txt = strip_comments(env.read(rel))
+    m = re.search(r"#\[repr\(C(?:, *align\((\d+)\))?\)\]\s*(?:#\[[^\]]*\]\s*)*pub(?:\([^)]*\))?\s+struct\s+" + re.escape(name) + r"\s*\{", txt)
+    if not m:
+        raise Unsupported(f"{name}: not a repr(C) struct in {rel}")
+    align = int(m.group(1) or 1)
+    body = balanced_block(txt, m.end() - 1)
+    off = 0
+    for part in mirsmt.split_top(body):
+        part = re.sub(r"#\[[^\]]*\]", "", part).strip()
+        mm = re.match(r"^(?:pub(?:\([^)]*\))?\s+)?(\w+)\s*:\s*(.+)$", part, re.S)
+        if not mm:
+            continue
+        ty = re.sub(r"\s+", "", mm.group(2))
+        if ty not in SCALAR_LAYOUT:
+            raise Unsupported(f"{name}.{mm.group(1)}: layout of field type {ty} not modelled")
+        sz, al = SCALAR_LAYOUT[ty]
+        off = (off + al - 1) // al * al + sz
+        align = max(align, al)
+    return (off + align - 1) // align * align
+
+
+def _u(v):
+    return bvconst(v, 64)
+
+
+def _container_models(N, cells, sizeof):
+    """Call models for the std containers compute_best_cell_distribution uses.  Along one path every length, counter and
+    index is a literal (branches fork the path), so a Vec<usize> is a Python list of cells holding SMT terms; only the
+    cell sizes (and the sums built from them) are symbolic.  A model that meets a non-literal index gives up."""
+    Panic = mirsmt.Panic
+
+    def lit(v, what):
+        c = mirsmt.const_of(v.term) if isinstance(v, Leaf) else None
+        if c is None or isinstance(c, bool):
+            raise Unsupported(f"{what} is not a literal on this path: {v!r}")
+        return c
+
+    def deref(a):
+        return a.cell.val if isinstance(a, Ref) else a
+
+    def m_vec_from_box(ex, path, frame, callee, args, dest_ty):
+        n = int(re.search(r"<usize, (\d+)>", callee).group(1))
+        bx = args[0]
+        try:
+            arr = path.heap[bx.name + ".0.0"].val.fields["1"].val.fields["0"].val.fields["0"].val
+            items = [Cell(arr.fields[f"[{i} of {n}]"].val) for i in range(n)]
+        except (KeyError, AttributeError):
+            raise Unsupported("vec![..] lowering not recognised")
+        v = Agg(ex.ctx, None, dest_ty)
+        v.items = items
+        return v
+
+    def m_len(ex, path, frame, callee, args, dest_ty):
+        v = deref(args[0])
+        if hasattr(v, "items"):
+            return Leaf(_u(len(v.items)), "usize")
+        if hasattr(v, "seq"):
+            return Leaf(_u(len(v.seq)), "usize")
+        return NotImplemented
+
+    def m_index(ex, path, frame, callee, args, dest_ty):
+        v = deref(args[0])
+        i = lit(args[1], "container index")
+        seq = getattr(v, "items", None)
+        if seq is not None:
+            return Ref(seq[i], True) if i < len(seq) else Panic("index out of bounds")
+        seq = getattr(v, "seq", None)
+        if seq is not None:
+            return Ref(seq[i]) if i < len(seq) else Panic("index out of bounds (Out of bounds access)")
+        return NotImplemented
+
+    def m_push(ex, path, frame, callee, args, dest_ty):
+        v = deref(args[0])
+        if not hasattr(v, "items"):
+            return NotImplemented
+        v.items.append(Cell(args[1]))
+        return Unit()
+
+    def m_deref(ex, path, frame, callee, args, dest_ty):
+        return args[0] if isinstance(args[0], Ref) and hasattr(args[0].cell.val, "items") else NotImplemented
+
+    def opt(ex, dest_ty, payload):
+        o = Agg(ex.ctx, None, dest_ty)
+        o.disc = Leaf(_u(0 if payload is None else 1), "isize")
+        if payload is not None:
+            some = Agg(ex.ctx, None, "Some")
+            some.fields["0"] = Cell(payload)
+            o.variants["Some"] = Cell(some)
+        return o
+
+    def m_last(ex, path, frame, callee, args, dest_ty):
+        v = deref(args[0])
+        if not hasattr(v, "items"):
+            return NotImplemented
+        return opt(ex, dest_ty, Ref(v.items[-1]) if v.items else None)
+
+    def m_unwrap(ex, path, frame, callee, args, dest_ty):
+        o = args[0]
+        d = mirsmt.const_of(o.get_disc().term) if isinstance(o, Agg) else None
+        if d is None:
+            return NotImplemented
+        return o.variants["Some"].val.fields["0"].val if d == 1 else Panic("called `Option::unwrap()` on a `None` value")
+
+    def arith(ex, path, op, a, b, msg):
+        """checked a op b on usize; the overflow case becomes a side condition of the path"""
+        t = ex.binop(path, op + "WithOverflow", a, b)
+        ovf = t.fields["1"].val.term
+        if ovf == "true":
+            return Panic(msg)
+        if ovf != "false":
+            path.side.append((list(path.pc), fold(f"(not {ovf})"), msg))
+            path.pc.append(fold(f"(not {ovf})"))
+        return t.fields["0"].val
+
+    def m_sub_ref(ex, path, frame, callee, args, dest_ty):      # <usize as Sub<&usize>>::sub(a, &b)
+        return arith(ex, path, "Sub", args[0], deref(args[1]), "attempt to subtract with overflow")
+
+    def m_add_assign(ex, path, frame, callee, args, dest_ty):   # <usize as AddAssign<&usize>>::add_assign(&mut a, &b)
+        r = arith(ex, path, "Add", args[0].cell.val, deref(args[1]), "attempt to add with overflow")
+        if isinstance(r, Panic):
+            return r
+        args[0].cell.val = r
+        return Unit()
+
+    def m_sub_assign(ex, path, frame, callee, args, dest_ty):
+        r = arith(ex, path, "Sub", args[0].cell.val, deref(args[1]), "attempt to subtract with overflow")
+        if isinstance(r, Panic):
+            return r
+        args[0].cell.val = r
+        return Unit()
+
+    def m_deque_iter(ex, path, frame, callee, args, dest_ty):
+        v = deref(args[0])
+        if not hasattr(v, "seq"):
+            return NotImplemented
+        it = Agg(ex.ctx, None, dest_ty)
+        it.seq, it.pos = v.seq, 0
+        return it
+
+    def m_deque_next(ex, path, frame, callee, args, dest_ty):
+        it = deref(args[0])
+        if not hasattr(it, "pos"):
+            return NotImplemented
+        if it.pos < len(it.seq):
+            it.pos += 1
+            return opt(ex, dest_ty, Ref(it.seq[it.pos - 1]))
+        return opt(ex, dest_ty, None)
+
+    def m_range_new(ex, path, frame, callee, args, dest_ty):
+        r = Agg(ex.ctx, None, dest_ty)
+        r.lo, r.hi = lit(args[0], "range start"), lit(args[1], "range end")
+        return r
+
+    def m_ident(ex, path, frame, callee, args, dest_ty):
+        return args[0] if hasattr(args[0], "lo") else NotImplemented
+
+    def m_rev_next(ex, path, frame, callee, args, dest_ty):
+        r = deref(args[0])
+        if not hasattr(r, "lo"):
+            return NotImplemented
+        if r.lo <= r.hi:
+            r.hi -= 1
+            return opt(ex, dest_ty, Leaf(_u(r.hi + 1), "usize"))
+        return opt(ex, dest_ty, None)
+
+    def m_size_of(ex, path, frame, callee, args, dest_ty):
+        t = re.search(r"size_of::<(.*)>$", callee).group(1)
+        if t not in sizeof:
+            raise Unsupported(f"size_of::<{t}> not modelled")
+        return Leaf(_u(sizeof[t]), "usize")
+
+    def m_sat_mul(ex, path, frame, callee, args, dest_ty):
+        a, b = args
+        wide = f"(bvmul ((_ zero_extend 64) {a.term}) ((_ zero_extend 64) {b.term}))"
+        ca, cb = mirsmt.const_of(a.term), mirsmt.const_of(b.term)
+        if ca is not None and cb is not None:
+            return Leaf(_u(min(ca * cb, (1 << 64) - 1)), "usize")
+        return Leaf(f"(ite (= ((_ extract 127 64) {wide}) {_u(0)}) (bvmul {a.term} {b.term}) {_u((1 << 64) - 1)})", "usize")
+
+    def m_div_ceil(ex, path, frame, callee, args, dest_ty):
+        a, b = args
+        ca, cb = mirsmt.const_of(a.term), mirsmt.const_of(b.term)
+        if cb == 0:
+            return Panic("attempt to divide by zero")
+        if ca is not None and cb is not None:
+            return Leaf(_u(-(-ca // cb)), "usize")
+        return Leaf(f"(bvadd (bvudiv {a.term} {b.term}) (ite (= (bvurem {a.term} {b.term}) {_u(0)}) {_u(0)} {_u(1)}))", "usize")
+    return {r"box_assume_init_into_vec_unsafe::<usize, \d+>$": m_vec_from_box,
+            r"^Vec::<usize>::len$|^VecDeque::<OwnedCell>::len$": m_len,
+            r"^<Vec<usize> as Index(Mut)?<usize>>::index(_mut)?$|^<VecDeque<OwnedCell> as Index<usize>>::index$": m_index,
+            r"^Vec::<usize>::push$": m_push, r"^<Vec<usize> as Deref>::deref$": m_deref,
+            r"^core::slice::<impl \[usize\]>::last$": m_last, r"^Option::<&usize>::unwrap$": m_unwrap,
+            r"^<usize as Sub<&usize>>::sub$": m_sub_ref, r"^<usize as AddAssign<&usize>>::add_assign$": m_add_assign,
+            r"^<usize as SubAssign<&usize>>::sub_assign$": m_sub_assign,
+            r"^<&VecDeque<OwnedCell> as IntoIterator>::into_iter$": m_deque_iter,
+            r"vec_deque::Iter<'_, OwnedCell> as Iterator>::next$": m_deque_next,
+            r"RangeInclusive::<usize>::new$": m_range_new, r"RangeInclusive<usize> as Iterator>::rev$": m_ident,
+            r"^<Rev<std::ops::RangeInclusive<usize>> as IntoIterator>::into_iter$": m_ident,
+            r"^<Rev<std::ops::RangeInclusive<usize>> as Iterator>::next$": m_rev_next,
+            r"^std::mem::size_of::<.*>$": m_size_of, r"<impl usize>::saturating_mul$": m_sat_mul,
+            r"<impl usize>::div_ceil$": m_div_ceil}
+
+
+BUF = "storage/core/buffer.rs"
+CELLRS = "storage/cell.rs"
+
+
+def _balance_plan(env, ob, N, page_size, min_keys):
+    H = repr_c_size(env, CELLRS, "CellHeader")
+    PH = repr_c_size(env, "storage/page.rs", "BtreePageHeader")
+    sizeof = {"M": PH, "u16": 2, "CellHeader": H}
+    ctx = mirsmt.Ctx()
+    seq = [Cell(Agg(ctx, f"cell{i}", "storage::cell::OwnedCell")) for i in range(N)]
+    dq = Agg(ctx, None, "VecDeque<OwnedCell>")
+    dq.seq = seq
+    inline = {r"^OwnedCell::storage_size$": (CELLRS, "storage_size", r"&OwnedCell\) -> usize"),
+              r"^OwnedCell::total_size$": (CELLRS, "total_size", r"&OwnedCell\) -> usize"),
+              r"BtreeOps>::overflow_threshold$": (BUF, "overflow_threshold", None),
+              r"BtreeOps>::underflow_threshold$": (BUF, "underflow_threshold", None),
+              r"^MemBlock::<M>::usable_space$": (BUF, "usable_space", None)}
+    f = env.mir.find("tree/bplustree.rs", "compute_best_cell_distribution")
+    mdl = dict(COMMON_MODELS)
+    mdl.update(_container_models(N, seq, sizeof))
+    ex = mirsmt.Executor(env.mir, ctx, inline=inline, models=mdl, loop_bound=N + 2, max_paths=200000)
+    # the named constant CELL_HEADER_SIZE is size_of::<CellHeader>() (read from its definition in the dump)
+    hname = ex.named_const(type("C", (), {"const_text": "storage::cell::CELL_HEADER_SIZE"})(), "usize").term
+    # --- precondition: what Btree::insert / CellBuilder let into a page (payload padded to 8, at most the ideal maximum)
+    hi = env.struct_fields(CELLRS, "OwnedCell").index("header")
+    si = env.struct_fields(CELLRS, "CellHeader").index("size")
+    usable = page_size - PH
+    maxp = ((usable // min_keys) - H - 2) & ~7          # BtreeOps::ideal_max_payload_size (checked by C10.thresholds)
+    A = [f"(= {hname} {_u(H)})"]
+    szs = []
+    for i in range(N):
+        sym = seq[i].val.field_cell(str(hi), "storage::cell::CellHeader").val.field_cell(str(si), "u64").val.term
+        A += [f"(bvuge {sym} {_u(8)})", f"(bvule {sym} {_u(maxp)})", f"(= (bvand {sym} {_u(7)}) {_u(0)})"]
+        szs.append(sym)
+    online = OnlineZ3(ctx, A)
+    ex.prune = online
+    try:
+        res = ex.run(f, [Ref(Cell(dq)), Leaf(_u(page_size), "usize")])
+    finally:
+        online.close()
+    env.queries += online.n
+    env.solver_s += online.t
+    store = [f"(bvadd {s_} {_u(H + 2)})" for s_ in szs]
+    pre = conj(A)
+    queries, meta = [], []
+    n_ok = 0
+    for path, rv in res:
+        pc = conj(path.pc)
+        if path.cut:
+            queries.append(conj([pre, pc])); meta.append(("cut", path.cut, path))
+            continue
+        for (prefix, cond, msg) in path.side:
+            queries.append(conj([pre] + prefix + [f"(not {cond})"])); meta.append(("panic", msg, path))
+        if path.panics:
+            queries.append(conj([pre, pc])); meta.append(("panic", path.panics, path))
+            continue
+        counts = [mirsmt.const_of(c.val.term) for c in rv.fields["1"].val.items]
+        if any(c is None for c in counts):
+            raise Unsupported("a page count of the plan is not a literal")
+        n_ok += 1
+        bad = None
+        if sum(counts) != N:
+            bad = "plan_distributes_every_cell_exactly_once"
+        elif any(c < 1 for c in counts):
+            bad = "plan_has_no_empty_page"
+        if bad:
+            queries.append(conj([pre, pc])); meta.append(("law", bad, path, counts))
+            continue
+        k = 0
+        for c in counts:
+            real = store[k] if c == 1 else "(bvadd " + " ".join(store[k:k + c]) + ")"
+            k += c
+            queries.append(conj([pre, pc, f"(bvugt {real} {_u(usable)})"]))
+            meta.append(("law", "cells_planned_for_a_page_fit_in_the_page", path, counts))
+    badp = cvc5_all_unsat(env, ctx, [conj([pre] + pcx) for pcx in ex.pruned])
+    # vacuity witness: some complete path is feasible under the precondition
+    wit = disj([conj(p.pc) for p, rv in res if not p.cut and not p.panics])
+    w = env.check(ctx, [conj([pre, wit])])[0]
+    fails, incon = {}, []
+    if badp:
+        incon.append("cvc5 does not confirm a branch z3 ruled out during exploration: " + badp[0])
+    if w["verdict"] != "sat":
+        incon.append("vacuity: no feasible complete path (" + w["verdict"] + ")")
+    # the expected answer to every query is unsat: ask for whole batches at once (one disjunction per batch) and bisect
+    # only the batches that come back sat
+    n_q = [1]
+
+    def bisect(idx):
+        if not idx:
+            return
+        r = env.check(ctx, [disj([queries[i] for i in idx])], want_values=szs if len(idx) == 1 else None)[0]
+        n_q[0] += 1
+        if r["verdict"] == "unsat":
+            return
+        if r["verdict"] != "sat":
+            incon.append(r["verdict"])
+            return
+        if len(idx) > 1:
+            # only one witness per violated law is needed: drop the indices whose law is already reported
+            mid = len(idx) // 2
+            bisect(idx[:mid])
+            bisect([i for i in idx[mid:] if key_of(meta[i]) not in fails or meta[i][0] in ("cut", "pruned")])
+            return
+        m_ = meta[idx[0]]
+        if m_[0] == "cut":
+            incon.append("feasible path cut: " + m_[1])
+            return
+        if m_[0] == "pruned":
+            incon.append("solvers disagree on a branch pruned during exploration")
+            return
+        key = key_of(m_)
+        if key not in fails:
+            sizes = [r["model"].get(s_) for s_ in szs] if r.get("model") else None
+            fails[key] = {"sizes": sizes, "detail": m_[1], "counts": m_[3] if len(m_) > 3 else None}
+
+    def key_of(m_):
+        return "plan_panics" if m_[0] == "panic" else m_[1]
+    B = 8
+    for i in range(0, len(queries), B):
+        bisect(list(range(i, min(i + B, len(queries)))))
+    kw = dict(paths=len(res), queries=n_q[0] + len(ex.pruned) + online.n, conditions=len(queries), pruned=len(ex.pruned))
+    return fails, incon, kw, dict(H=H, PH=PH, maxp=maxp, usable=usable, ok_paths=n_ok)
+
+
+def gen_balance_native(name, cases, page_size):
+    body = []
+    for k, (sizes, law) in enumerate(cases):
+        body.append(f"""
+#[test]
+fn plan_{k}() {{
+    // violated law reported by the solver: {law}
+    let sizes: [usize; {len(sizes)}] = {sizes!r};
+    let mut cells: VecDeque<OwnedCell> = VecDeque::new();
+    for s in sizes {{
+        let mut c = OwnedCell::new(&[0u8; 8]);
+        *c.metadata_mut() = CellHeader::new(s, s, false);
+        cells.push_back(c);
+    }}
+    let (_t, counts) = Btree::<BtreeWriteAccessor>::compute_best_cell_distribution(&cells, {page_size});
+    assert_eq!(counts.iter().sum::<usize>(), sizes.len(), "plan_distributes_every_cell_exactly_once: {{counts:?}}");
+    assert!(counts.iter().all(|c| *c >= 1), "plan_has_no_empty_page: {{counts:?}}");
+    let mut k = 0;
+    for c in &counts {{
+        let real: usize = cells.iter().skip(k).take(*c).map(|c| c.storage_size()).sum();
+        assert!(real <= BtreePage::usable_space({page_size}), "cells_planned_for_a_page_fit_in_the_page: {{counts:?}} page holds {{real}}");
+        k += c;
+    }}
+}}""")
+    return ("// host: tree/bplustree.rs\n// generated from solver models (engine M, C10.balance_plan): the real planner on the concrete cell sizes\n"
+            "use super::*;\nuse crate::storage::cell::{CellHeader, OwnedCell};\n" + "\n".join(body) + "\n")
+
+
+def run_balance_plan(env, ob, Ns, page_size=4096, min_keys=3):
+    allf, incon, paths, queries, info = {}, [], 0, 0, {}
+    for N in Ns:
+        fails, inc, kw, inf = _balance_plan(env, ob, N, page_size, min_keys)
+        paths += kw["paths"]; queries += kw["queries"]; info[N] = inf
+        incon += [f"N={N}: {x}" for x in inc]
+        for k, v in fails.items():
+            allf.setdefault(k, dict(v, N=N))
+    kw = dict(paths=paths, queries=queries, events=info)
+    if allf:
+        r = result(ob, "violated", failed=sorted(allf), cex={"cases": allf}, **kw)
+        cases = [(v["sizes"], k) for k, v in sorted(allf.items()) if v.get("sizes") and None not in v["sizes"]]
+        if cases:
+            nm = "c10_balance_plan_" + re.sub(r"\W+", "_", ob["id"]).strip("_").lower()
+            r["native_code"] = {"name": nm, "code": gen_balance_native(nm, cases, page_size)}
+        return r
+    if incon:
+        return result(ob, "inconclusive", reason="; ".join(sorted(set(incon)))[:300], **kw)
+    return result(ob, "discharged", **kw)
+
+
+BP_FUNCS = ("Btree::compute_best_cell_distribution,OwnedCell::storage_size,OwnedCell::total_size,BtreeOps::overflow_threshold,"
+            "BtreeOps::underflow_threshold,MemBlock::usable_space")
+BP_ASSUME = ("cell payload sizes: multiples of 8 in [8, ideal_max_payload_size(page, min_keys)] (what CellBuilder stores in a "
+             "page); size_of of the two repr(C) headers computed from their field lists; std containers replaced by models "
+             "(Vec<usize> / VecDeque / RangeInclusive.rev(): literal lengths and indices along each path)")
+
+
+@obligation(id="C10.balance_plan[2..5 cells]", funcs=BP_FUNCS, assume=BP_ASSUME,
+            bounds="page 4096, min_keys 3, every sequence of 2..5 cells with ANY admissible sizes; every path of the planner")
+def c10_balance_plan_q(env, ob):
+    return run_balance_plan(env, ob, [2, 3, 4, 5])
+
+
+@obligation(id="C10.balance_plan[6..7 cells]", tier="thorough", funcs=BP_FUNCS, assume=BP_ASSUME,
+            bounds="page 4096, min_keys 3, every sequence of 6..7 cells with ANY admissible sizes (three pages)")
+def c10_balance_plan_t(env, ob):
+    return run_balance_plan(env, ob, [6, 7])
 
 
 # =====================================================================================================================
